@@ -13,12 +13,14 @@ export VERIF_ROOT="$here"
 mkdir -p bin evidence
 modflag=""
 scratch=""
-if [ "$prop" = C18 ]; then
+if [ "$prop" = C18 ] || [ "$prop" = C19 ]; then
 	# C18's scheduler can only switch goroutines at announced lock/channel
 	# operations: build against a scratch copy of /repo in which every
 	# Lock/RLock call of encoding/osm that carries no announcement gets one
 	# (tools/hookfill; inserts nothing when the hooks are complete)
-	scratch=$(mktemp -d /tmp/verif-c18.XXXXXX) || exit 2
+	# (C19: statement-level yield points in package route for the interleaved
+	# query pairs)
+	scratch=$(mktemp -d /tmp/verif-$prop.XXXXXX) || exit 2
 	trap 'rm -rf "$scratch"' EXIT
 	if ! go build -o bin/hookfill ./tools/hookfill 2>"bin/build-$prop.log" || ! bin/hookfill /repo "$scratch/repo" >"bin/hookfill.log" 2>&1; then
 		echo "check.sh: hookfill failed (not a property violation):" >&2
